@@ -19,12 +19,22 @@
 //                                                                        n: slices of the fresh page the call needs)
 //   O <opno> F <slot> <ptr> <segbase> <lo> <cnt>
 //   O <opno> C
+//   O <opno> f <slot> <ptr> <segbase> <lo> <cnt>       (drain) mi_free of a small/medium block; its page <segbase>+<lo>:<cnt>
+//                                                      is freed by this call iff it is no longer a used span in the dump
+//   O <opno> D <k> <segbase>:<lo>:<cnt> ...            (drain) the final mi_collect(true); the k pages without a used block
+//                                                      in the order in which mi_heap_collect_ex will free them
 //   L <kind> <addr> <len> <arg> <ok>                    every OS call of the API call, in order (kind 2 = mprotect)
 //   A <start> <nblocks> <fields> inuse.. committed.. dirty.. purge..   the arena's bitmap words
 //   S <base> <huge> <nslices> <info> <block> <nblocks> c0..c7 p0..p7 <k> lo:cnt ...   every live segment
 //   K <lo> <n> <runs...>                                shim ledger, per slice, alternating run lengths (first: inaccessible)
 //   T ...                                               implementation-side oracle records (see below)
 //   E
+// After the <nops> seeded calls the run is DRAINED (property C11, coq/Properties/C11back.v): every large/huge block is
+// freed (F), every small/medium block is freed (f), mi_collect(true) is called (D) -- each with its own failure plan and
+// dump -- and the real allocator must have given everything back:
+//   T giveback <opno> <segments owned by the thread> <tld current_size> <arena blocks in use> <free blocks still scheduled
+//              for a purge> <pages in the heap> <bytes mapped outside the arena at the start> <now> <segment-map bytes>
+//   G <segments> <blocks in use> <scheduled> <outside delta>    the same for the model replay (ocaml/mode_commit.ml)
 // T records:  T ret <opno> <ptr> <usable> <accessible>      a returned block, accessible per the ledger?
 //             T bit <opno> arena <block> <slice>            a committed bit over an inaccessible slice (not governed by a mask)
 //             T bit <opno> mask <segbase> <slice>           a commit-mask bit (or a huge segment) over an inaccessible slice
@@ -32,6 +42,7 @@
 //             T unused <opno> <segbase> <block> <used>      a live segment without a single page (never freed later)
 //             T chk <opno> <bits checked>
 //             T crash <opno> <signal>
+//             T giveback ...                                 see above (after the drain)
 #include REPO_STATIC
 #include <stdio.h>
 #include <stdlib.h>
@@ -187,6 +198,49 @@ static void set_failure_plan(void) {
   }
 }
 
+// mi_free of the one-block page in slot s (large or huge): its page is freed at once
+static void op_free_page(int s) {
+  void* p = slots[s].p;
+  mi_segment_t* sg = _mi_ptr_segment(p); mi_page_t* pg = _mi_segment_page_of(sg, p);
+  printf("O %ld F %d %llu %zu %zu %u\n", opno, s, U(p), (size_t)sg / SLICE, (size_t)((mi_slice_t*)pg - sg->slices), pg->slice_count);
+  inject = 1; mi_free(p); inject = 0;
+  slots[s].kind = 0; slots[s].p = NULL;
+}
+
+// ---- the drain (C11): what is mapped outside the memory reserved for the arena, the segment-map parts (never freed)
+static uint8_t* reserved_base; static size_t reserved_len;
+static size_t mapped_outside(void) {
+  size_t m = 0, rw = 0, c = 0, pu = 0;
+  shim_range_stats(reserved_base, reserved_len, &m, &rw, &c, &pu);
+  return shim_total_mapped() - m;
+}
+static size_t segmap_bytes(void) {
+  size_t n = 0;
+  for (size_t i = 0; i < MI_SEGMENT_MAP_MAX_PARTS; i++) if (mi_atomic_load_ptr_relaxed(mi_segmap_part_t, &mi_segment_map[i]) != NULL) n += _mi_os_good_alloc_size(sizeof(mi_segmap_part_t));
+  return n;
+}
+static void print_page(mi_page_t* page) {
+  mi_segment_t* sg = _mi_page_segment(page);
+  printf(" %zu:%zu:%u", (size_t)sg / SLICE, (size_t)((mi_slice_t*)page - sg->slices), page->slice_count);
+}
+// the pages that the forced collect will free, in its order: _mi_heap_collect_retired (the head of every queue from
+// page_retired_min to page_retired_max that is retired and without a used block), then mi_heap_visit_pages (queue by queue)
+static void print_collect_order(mi_heap_t* heap) {
+  mi_page_t* first[MI_BIN_FULL + 1]; size_t k = 0;
+  for (size_t bin = 0; bin <= MI_BIN_FULL; bin++) first[bin] = NULL;
+  for (size_t bin = heap->page_retired_min; bin <= heap->page_retired_max && bin <= MI_BIN_FULL; bin++) {
+    mi_page_t* page = heap->pages[bin].first;
+    if (page != NULL && page->retire_expire != 0 && mi_page_all_free(page)) { first[bin] = page; k++; }
+  }
+  for (size_t bin = 0; bin <= MI_BIN_FULL; bin++)
+    for (mi_page_t* page = heap->pages[bin].first; page != NULL; page = page->next) if (page != first[bin] && mi_page_all_free(page)) k++;
+  printf("O %ld D %zu", opno, k);
+  for (size_t bin = 0; bin <= MI_BIN_FULL; bin++) if (first[bin] != NULL) print_page(first[bin]);
+  for (size_t bin = 0; bin <= MI_BIN_FULL; bin++)
+    for (mi_page_t* page = heap->pages[bin].first; page != NULL; page = page->next) if (page != first[bin] && mi_page_all_free(page)) print_page(page);
+  printf("\n");
+}
+
 int main(int argc, char** argv) {
   uint64_t seed = argc > 1 ? strtoull(argv[1], NULL, 10) : 1;
   long nops = argc > 2 ? atol(argv[2]) : 200;
@@ -213,6 +267,7 @@ int main(int argc, char** argv) {
   const size_t asize = nblocks * MI_ARENA_BLOCK_SIZE;
   uint8_t* raw = (uint8_t*)mmap(NULL, asize + MI_SEGMENT_ALIGN, PROT_NONE, MAP_PRIVATE | MAP_ANONYMOUS | MAP_NORESERVE, -1, 0);
   if (raw == MAP_FAILED) { fprintf(stderr, "cannot reserve the arena\n"); return 2; }
+  reserved_base = raw; reserved_len = asize + MI_SEGMENT_ALIGN;
   uint8_t* start = (uint8_t*)_mi_align_up((uintptr_t)raw, MI_SEGMENT_ALIGN);
   mi_arena_id_t aid;
   if (!mi_manage_os_memory_ex(start, asize, false /* committed */, false /* large */, true /* zero */, -1, false /* exclusive */, &aid)) {
@@ -224,6 +279,7 @@ int main(int argc, char** argv) {
   printf("CFG %d %d %d %d %d %zu %zu %zu\n", ((MI_DEBUG || MI_SECURE) && decommits) ? 1 : 0, delay == 0 ? 1 : 0, adelay == 0 ? 1 : 0, delay >= 0 ? 1 : 0, eager,
          (size_t)arena->start / SLICE, arena->block_count, (size_t)(MI_ARENA_BLOCK_SIZE / SLICE));
   shim_fail = &fail_hook;
+  const size_t outside_start = mapped_outside(), segmap_start = segmap_bytes();
 
   for (long k = 0; k < nops; k++) {
     opno++;
@@ -238,11 +294,7 @@ int main(int argc, char** argv) {
     else if ((r < 45 && nfreeable > 0) || nlive >= MAXSLOT - 1) {
       if (nfreeable == 0) { opno--; continue; }
       int s; do { s = (int)prng_below(&G, MAXSLOT); } while (slots[s].kind < 2);
-      void* p = slots[s].p;
-      mi_segment_t* sg = _mi_ptr_segment(p); mi_page_t* pg = _mi_segment_page_of(sg, p);
-      printf("O %ld F %d %llu %zu %zu %u\n", opno, s, U(p), (size_t)sg / SLICE, (size_t)((mi_slice_t*)pg - sg->slices), pg->slice_count);
-      inject = 1; mi_free(p); inject = 0;
-      slots[s].kind = 0; slots[s].p = NULL;
+      op_free_page(s);
     }
     else {
       int s = 0; while (slots[s].kind) s++;
@@ -270,6 +322,42 @@ int main(int argc, char** argv) {
       }
     }
     dump(log_from);
+  }
+
+  // ---- the drain: free everything, force a collect, and look at what the allocator still holds
+  for (int s = 0; s < MAXSLOT; s++) {
+    if (slots[s].kind < 2) continue;
+    opno++; size_t log_from = shim_log_count(); set_failure_plan();
+    op_free_page(s);
+    dump(log_from);
+  }
+  for (int s = 0; s < MAXSLOT; s++) {
+    if (slots[s].kind != 1) continue;
+    opno++; size_t log_from = shim_log_count(); set_failure_plan();
+    void* p = slots[s].p;
+    mi_segment_t* sg = _mi_ptr_segment(p); mi_page_t* pg = _mi_segment_page_of(sg, p);
+    printf("O %ld f %d %llu %zu %zu %u\n", opno, s, U(p), (size_t)sg / SLICE, (size_t)((mi_slice_t*)pg - sg->slices), pg->slice_count);
+    inject = 1; mi_free(p); inject = 0;
+    slots[s].kind = 0; slots[s].p = NULL;
+    dump(log_from);
+  }
+  {
+    opno++; size_t log_from = shim_log_count(); set_failure_plan();
+    mi_heap_t* heap = mi_prim_get_default_heap();
+    print_collect_order(heap);
+    inject = 1; mi_collect(true); inject = 0;
+    dump(log_from);
+    size_t inuse = 0, sched = 0;
+    for (size_t b = 0; b < arena->block_count; b++) {
+      int u = (int)((arena->blocks_inuse[b / 64] >> (b % 64)) & 1), pg = (int)((arena->blocks_purge[b / 64] >> (b % 64)) & 1);
+      if (u) inuse++; else if (pg) sched++;
+    }
+    mi_segments_tld_t* stld = &heap->tld->segments;
+    const size_t outside_now = mapped_outside(), segmap_now = segmap_bytes();
+    printf("T giveback %ld %zu %zu %zu %zu %zu %zu %zu %zu\n", opno, stld->count, stld->current_size, inuse, sched, heap->page_count,
+           outside_start, outside_now, segmap_now - segmap_start);
+    const size_t allowed = outside_start + (segmap_now - segmap_start);
+    printf("G %zu %zu %zu %zu\n", stld->count, inuse, sched, outside_now > allowed ? outside_now - allowed : (size_t)0);
   }
   printf("END %ld %ld\n", opno, injected);
   return 0;
